@@ -464,6 +464,12 @@ class Extractor:
         flagged `lost` (every property that relies on this function becomes UNDECIDED, the others are unaffected)"""
         snap_clauses = dict(self.clauses); snap_rules = dict(self.rules_used); snap_fns = len(self.fns)
         fpath_ = (container + '::' + item.name) if container else item.name
+        if self.canary and not (fnspec or {}).get('requires') and item.body_open >= 0 and (module, fpath_) not in self.force_external:
+            # canary file: only functions with a precondition (and the per-module axiom canaries) need to be verified;
+            # everything else is left unverified there (signature-level contract only), which makes the canary pass cheap
+            fs = {k: v for k, v in (fnspec or {'path': fpath_}).items() if k in ('path', 'ret', 'requires', 'ensures')}
+            fs['external_body'] = True
+            return self._process_fn(toks, item, module, container, fs, in_trait_impl, 'external')
         try:
             if (module, fpath_) in self.force_external:
                 raise ExtractError(self.force_external[(module, fpath_)])
@@ -518,6 +524,7 @@ class Extractor:
         if sp.get('external_body'):
             attrs.append('#[verifier::external_body]')
             rec.external = True
+
         if attrs:
             # before the first non-attribute token of the item (after existing attrs is fine too)
             add(fitem.head if not _has_vis(ftoks, fitem) else _vis_idx(ftoks, fitem), ' '.join(attrs) + ' ')
